@@ -107,6 +107,13 @@ CHECKS = {
   text="Runs of 2/4/8 goroutines x 6..15 random commands of every kind against a scripted server that answers out of order and delays continuation requests, in four regimes (healthy, connection reset at a random byte, concurrent Close, both), with and without capability data in greeting / LOGIN, each workload under 3 yield seeds. Decides on the executions produced: zero deduplicated race reports with imapclient/imapwire frames, unique tags, every submitted command completes exactly once, Close returns.",
   design_ref="DESIGN.md §3 C13",
   note="Sees only the interleavings produced; evidence counts distinct lock-acquisition fingerprints. Yields only at genuine suspension points."),
+
+ "C02": dict(
+  category="exploration",
+  technique="runtime oracle at the backend boundary: real client -> in-process connection -> real server with a recording stub Session; each recorded call is compared with the caller's arguments under an explicit normalisation table, search criteria additionally evaluated with the independent reference matcher on a message universe; race detector on",
+  text="Sessions of 45..60 client API calls over every command the server implements x argument strings from 18 classes and mailbox names from 9 classes, all fetch-attribute subsets with body/binary sections, search-criteria trees over every field, list/status option subsets, sets incl. '*' and '$', payload sizes around 4096 x 4 server capability configurations x {nothing, UTF8=ACCEPT, IMAP4rev2} enabled.",
+  design_ref="DESIGN.md §3 C02",
+  note="Arguments over 4096 bytes that the server must buffer may be refused (then only 'not altered if delivered' is checked); features the server does not implement are not generated."),
 }
 
 NOT_YET = "check not built yet in this round (planned in DESIGN.md §3; runtime monitoring applies)"
